@@ -78,6 +78,9 @@ def cases(tier, seed):
     out.append({"id": "segargmax-float-n3-trail[2]", "kind": "segargmax", "n": 3, "trail": [2], "alpha": "float"})
     for n in range(2, 5):
         out.append({"id": f"segargmax-nearties-n{n}-trail[]", "kind": "segargmax", "n": n, "trail": [], "alpha": "near"})
+    # segment ids that are NOT sorted / not contiguous (every surjective assignment of rows to segments)
+    for n in range(2, 5):
+        out.append({"id": f"segargmax-unsorted-ids-n{n}", "kind": "segargmax", "n": n, "trail": [], "unsorted": True})
     for shape in [[2], [3], [4], [2, 2]]:
         nd = len(shape)
         for r in range(1, nd + 1):
@@ -219,9 +222,12 @@ def _run_segargmax(case):
     viols = []
     cnt = 0
     dig = []
-    for cuts in itertools.product([0, 1], repeat=n - 1):
-        ids = np.concatenate([[0], np.cumsum(cuts)]).astype(np.int32)
-        k = int(ids[-1]) + 1
+    if case.get("unsorted"):
+        id_vectors = [np.array(v, dtype=np.int32) for kk in range(1, n + 1) for v in itertools.product(range(kk), repeat=n) if len(set(v)) == kk]
+    else:
+        id_vectors = [np.concatenate([[0], np.cumsum(cuts)]).astype(np.int32) for cuts in itertools.product([0, 1], repeat=n - 1)]
+    for ids in id_vectors:
+        k = int(ids.max()) + 1
         for mode in ("jit", "eager1"):
             if mode == "jit":
                 f = jax.jit(jax.vmap(lambda a: segment_argmax(a, segment_ids=jnp.asarray(ids), num_segments=k)))
